@@ -47,6 +47,30 @@ pub fn pad(ver: i64, size: usize) -> String {
     s
 }
 
+/// A value whose `Clone` is a scheduling point for managed threads (no-op otherwise).
+#[derive(Debug, PartialEq)]
+pub struct Y(pub i64);
+impl Clone for Y {
+    fn clone(&self) -> Self {
+        parking_lot::sched::yield_point(77);
+        Y(self.0)
+    }
+}
+impl cachelito_core::MemoryEstimator for Y {
+    fn estimate_memory(&self) -> usize {
+        std::mem::size_of::<Y>()
+    }
+}
+pub fn raw_y(r: Raw) -> Y {
+    Y(r.ver)
+}
+pub fn out_y(v: &Y) -> Out {
+    Out {
+        ok: true,
+        val: v.0,
+        est: std::mem::size_of::<Y>(),
+    }
+}
 pub fn raw_i64(r: Raw) -> i64 {
     r.ver
 }
